@@ -209,6 +209,26 @@ impl<'tcx> Cx<'tcx> {
                 }
             }
         }
+        // reference to a static: name it and, for small integer statics, evaluate the initializer
+        if let Const::Val(ConstValue::Scalar(mir::interpret::Scalar::Ptr(ptr, _)), _) = c {
+            if let Some(rustc_middle::mir::interpret::GlobalAlloc::Static(sd)) =
+                self.tcx.try_get_global_alloc(ptr.provenance.alloc_id())
+            {
+                let _ = write!(o, ",\"static\":{}", js(&self.path(sd)));
+                if let Ok(alloc) = self.tcx.eval_static_initializer(sd) {
+                    let a = alloc.inner();
+                    let n = a.len();
+                    if n <= 16 && a.provenance().ptrs().is_empty() {
+                        let bytes = a.inspect_with_uninit_and_ptr_outside_interpreter(0..n);
+                        let mut v: u128 = 0;
+                        for (i, b) in bytes.iter().enumerate() {
+                            v |= (*b as u128) << (8 * i);
+                        }
+                        let _ = write!(o, ",\"sv\":{}", js(&v.to_string()));
+                    }
+                }
+            }
+        }
         let disp = fix_crate(with_crate_prefix!(with_no_trimmed_paths!(format!("{}", c))), &self.krate);
         let disp = if disp.len() > 200 { disp[..disp.char_indices().nth(200).map(|x| x.0).unwrap_or(disp.len())].to_string() } else { disp };
         let _ = write!(o, ",\"s\":{}", js(&disp));
